@@ -19,7 +19,8 @@
 (***************************************************************************)
 EXTENDS IpcFraming, TraceBase
 
-VARIABLE l
+VARIABLES l,
+          pred      \* the model's prediction for the session of the current event (computed once per event)
 
 KindName(x) == IF x = 0 THEN "schema" ELSE IF x = 1 THEN "batch" ELSE "dict"
 
@@ -44,7 +45,7 @@ SessionF(dd, o, c, kk, acc) ==
 
 ClassOf(o) == CASE o = "ok" -> "" [] o = "err:decode" -> "decode:IpcError" [] o = "err:finish" -> "finish:IpcError" [] OTHER -> "?"
 
-Init == /\ l = 1
+Init == /\ l = 1 /\ pred = [d |-> Pristine, calls |-> <<>>]
         /\ stream = [msgs |-> <<>>, legacy |-> FALSE, eos |-> FALSE, extra |-> 0, cutoff |-> 0]
         /\ inb = <<>> /\ cuts = <<>> /\ k = 1 /\ hi = 0 /\ off = 0 /\ d = Pristine /\ phase = "done" /\ outcome = ""
 
@@ -54,13 +55,16 @@ Input(ev) ==
   IN /\ stream' = st
      /\ inb' = Layout(st)
      /\ Judge(Len(Layout(st)) = ev.n /\ Len(Layout([st EXCEPT !.cutoff = 0])) = ev.full, l, "framing map does not add up")
-     /\ UNCHANGED <<cuts, k, hi, off, d, phase, outcome>>
+     /\ UNCHANGED <<cuts, k, hi, off, d, phase, outcome, pred>>
 
 Session(ev) ==
-  LET p == SessionF(Pristine, 0, ev.cuts, 1, <<>>)
-      o == Outcome(p.d)
-      n == Len(p.calls)
-  IN /\ Judge(ValidCuts(ev.cuts, Len(inb)) /\ ev.n = Len(inb), l, "session does not fit the input")
+  \* pred' is determined first, so that the prediction is evaluated once and then only looked up
+  /\ pred' = IF ValidCuts(ev.cuts, Len(inb)) THEN SessionF(Pristine, 0, ev.cuts, 1, <<>>) ELSE [d |-> Pristine, calls |-> <<>>]
+  /\ LET p == pred'
+         o == Outcome(p.d)
+         n == Len(p.calls)
+     IN
+     /\ Judge(ValidCuts(ev.cuts, Len(inb)) /\ ev.n = Len(inb), l, "session does not fit the input")
      /\ Judge(Len(ev.offered) = n /\ Len(ev.consumed) = n /\ Len(ev.gave) = n, l, <<"number of decode calls", n>>)
      /\ Judge(\A i \in 1..n : i \in DOMAIN ev.offered /\ i \in DOMAIN ev.consumed /\ i \in DOMAIN ev.gave =>
                  <<ev.offered[i], ev.consumed[i], ev.gave[i]>> = p.calls[i], l, "a decode call differs from the model")
@@ -74,7 +78,7 @@ Next == /\ l <= Len(Rec)
         /\ LET ev == Rec[l] IN
            CASE ev.op = "ipcinput" -> Input(ev)
              [] ev.op = "ipcsession" -> Session(ev)
-             [] OTHER -> Judge(FALSE, l, "unknown event") /\ UNCHANGED ivars
+             [] OTHER -> Judge(FALSE, l, "unknown event") /\ UNCHANGED <<ivars, pred>>
 
-Spec == Init /\ [][Next]_<<ivars, l>>
+Spec == Init /\ [][Next]_<<ivars, l, pred>>
 =============================================================================
